@@ -3,5 +3,5 @@
 cd "$(dirname "$0")/.." || exit 2
 ID=$1; T=$2
 c=$(bash tools/confirm_seed.sh $ID $T 2>&1 | tail -1); echo "$c"
-cp /tmp/seed-$ID/demo/patch.diff /tmp/seedpatch-$ID.diff
+cp ${SEED_DIR_PREFIX:-/tmp/seed-}$ID/demo/patch.diff /tmp/seedpatch-$ID.diff
 python3 tools/mutate.py run $ID /tmp/seedpatch-$ID.diff 2>&1 | tail -12
